@@ -91,11 +91,24 @@ func (o Op) String() string {
 
 func RefName(r int) string { return fmt.Sprintf("t%d", r) }
 
-// Script = universe + history of completed operations + the interrupted one.
+// Segment is an earlier run of a process on the same directory that was killed:
+// it opened the store, completed History and died before window system call K
+// of Final (K is taken modulo the window length).  J is filled in by the
+// harness: the number of model micro-steps of Final that were completed.
+type Segment struct {
+	History []Op `json:"history"`
+	Final   Op   `json:"final"`
+	K       int  `json:"k"`
+	J       int  `json:"j,omitempty"`
+}
+
+// Script = universe + earlier crashed runs + history of completed operations of
+// the last process + the operation it is interrupted in.
 type Script struct {
-	Blobs   []Blob `json:"blobs"`
-	History []Op   `json:"history"`
-	Final   Op     `json:"final"`
+	Blobs   []Blob    `json:"blobs"`
+	Pre     []Segment `json:"pre,omitempty"`
+	History []Op      `json:"history"`
+	Final   Op        `json:"final"`
 }
 
 func (s *Script) Blob(id int) *Blob {
